@@ -23,8 +23,9 @@ import sys
 
 VERIF = "/verif"
 REPO = "/repo"
-VPOOL = "/var/tmp/vpool"
-RPOOL = "/var/tmp/rpool"
+# one pair of pools per invocation, so that two invocations never share a worker directory
+VPOOL = "/var/tmp/vpool_%d" % os.getpid()
+RPOOL = "/var/tmp/rpool_%d" % os.getpid()
 EXTRA = {"C17_3": ["C06"], "C03_2": ["C07"], "C02_14": ["C07"], "C18_14": ["C09"]}
 
 
@@ -51,6 +52,8 @@ def teardown(n):
         sh(f"git -C {REPO} worktree remove --force {RPOOL}/{k}")
         shutil.rmtree(f"{RPOOL}/{k}", ignore_errors=True)
         shutil.rmtree(f"{VPOOL}/{k}", ignore_errors=True)
+    shutil.rmtree(VPOOL, ignore_errors=True)
+    shutil.rmtree(RPOOL, ignore_errors=True)
     sh(f"git -C {REPO} worktree prune")
 
 
